@@ -72,6 +72,20 @@ def cond_atoms(ctx, c, pol=True, subst=None):
         p_ = str(c.get("impl") or c.get("fn") or "")
         if p_.startswith("std::vec::Vec") or p_.startswith("[T]::") or "slice" in p_:
             return [norm_cmp("==" if pol else "!=", ("len", ctx.term(c["recv"], subst)), num(0))]
+    if k == "MethodCall" and c.get("name") in ("is_err", "is_ok") and not c.get("args") and subst is None:
+        # X.f().is_err() with f a local `if c { Err } else { Ok }` function is c (in the caller's terms)
+        from .terms import err_condition
+        r_ = strip(c["recv"])
+        if r_.get("k") in ("MethodCall", "Call"):
+            p_ = (r_.get("impl") or r_.get("fn")) if r_.get("k") == "MethodCall" else ((r_["f"].get("impl") or r_["f"].get("fn")) if r_["f"].get("k") == "Def" else None)
+            cf = ctx.pdb.fn(p_) if p_ else None
+            ec = err_condition(ctx.pdb, cf) if cf is not None else None
+            if ec is not None:
+                args = ([r_["recv"]] + list(r_.get("args", []))) if r_.get("k") == "MethodCall" else list(r_.get("args", []))
+                sub = {("param", i): ctx.term(a) for i, a in enumerate(args)}
+                cc = Ctx.for_fn(ctx.pdb, cf)
+                want_err = (c.get("name") == "is_err") == bool(pol)
+                return cond_atoms(cc, ec, want_err, sub)
     if k == "Local" and subst is None:
         # a named condition: `let bad = a || b; if bad {..}`  (immutable, nothing it reads changes in between)
         b = ctx.binds.get(c["v"])
